@@ -43,9 +43,10 @@ ASSUMPTIONS = ['canonical schedule for (a): a call issued without an '
 
 V = 757
 CANON = statehash.Canon(REPO, (__file__,))
-KINDS = ('ok', 'refuse', 'kick', 'loginkick', 'garbage')
+KINDS = ('ok', 'refuse', 'kick', 'loginkick', 'garbage', 'stall')
 PLANS = [('ok',), ('refuse', 'ok'), ('ok', 'refuse', 'ok'), ('kick', 'ok'),
-         ('loginkick', 'ok'), ('garbage', 'ok'), ('ok', 'kick', 'refuse')]
+         ('loginkick', 'ok'), ('garbage', 'ok'), ('ok', 'kick', 'refuse'),
+         ('stall', 'ok'), ('ok', 'stall')]
 OPS = ('connect', 'status', 'disc', 'disc_imm', 'settle', 'ka99', 'kick',
        'garbage')
 MAX_HANDLER_RECONNECTS = 2
@@ -133,6 +134,8 @@ class Model(object):
         k = self.kind
         if k == 'ok':
             self.in_play = True
+        elif k == 'stall':
+            self.in_play = False    # alive, but stuck inside a frame
         elif k == 'kick':
             self.exits += 1
             self.stop()
@@ -174,7 +177,7 @@ def body(W, plan, hr, history, final_probe=True, racing=False):
         i = len(W.net.conns) - 1 + W.net.refused
         kind = plan[min(i, len(plan) - 1)] if not W.force_ok else 'ok'
         login = {'ok': [('success',)], 'kick': [('success',)],
-                 'garbage': [('success',)],
+                 'garbage': [('success',)], 'stall': [('success',)],
                  'loginkick': [('disconnect', '{"text":"no"}')]}[kind]
         play = {'kick': [('disconnect', '{"text":"bye"}')],
                 'garbage': [('raw', 0x21, b'\x01')]}.get(kind, [])
@@ -185,6 +188,10 @@ def body(W, plan, hr, history, final_probe=True, racing=False):
                         status={'json': status_json(protocol=V,
                                                     name='1.18.1')})
         srv.kind = kind
+        if kind == 'stall':
+            # announces a 9-byte frame, sends 3 bytes of it and goes quiet:
+            # the networking thread ends up blocked inside a frame body
+            srv.play_script = [('rawbytes', b'\x09\x21\x00\x00')]
         W.servers.append(srv)
         return srv
     W.force_ok = False
@@ -265,6 +272,11 @@ def body(W, plan, hr, history, final_probe=True, racing=False):
                              'but live threads are %r' % (where, live)))
             else:
                 probe_play(where)
+        elif m.active and m.kind == 'stall' and m.call == 'connect':
+            if len(live) != 1:
+                viol.append(('thread-count', 'after %s the client should be '
+                             'waiting inside a frame, live threads are %r'
+                             % (where, live)))
         elif not m.active:
             if live:
                 viol.append(('thread-survives', 'after %s no conversation is '
@@ -542,8 +554,13 @@ PROGS = {
     'kick||connect': ([('srv_kick',), ('connect',)], []),
     'garbage||connect': ([('srv_garbage',), ('connect',)], []),
     'kick||disc,connect': ([('srv_kick',), ('disc',), ('connect',)], []),
+    # a listener reconnects from the networking thread (disconnect();
+    # connect()) while a user thread calls in
+    'ka99||status': ([('srv_ka99',), ('status',)], []),
+    'ka99||disc,status': ([('srv_ka99',), ('disc',), ('status',)], []),
 }
-SERVER_PROGS = ('kick||connect', 'garbage||connect', 'kick||disc,connect')
+SERVER_PROGS = ('kick||connect', 'garbage||connect', 'kick||disc,connect',
+                'ka99||status', 'ka99||disc,status')
 
 
 def sched_body(W, start, prog):
@@ -552,6 +569,7 @@ def sched_body(W, start, prog):
     S.in_run = S.max_in_run = 0
     from minecraft.exceptions import InvalidState
     errs, exits = [], []
+    results = {}
     refuse_first = start == 'refused'
     state = {'n': 0}
 
@@ -575,6 +593,17 @@ def sched_body(W, start, prog):
                         handle_exception=lambda e, i: errs.append(
                             type(e).__name__),
                         handle_exit=lambda: exits.append(1))
+    from minecraft.networking.packets import clientbound
+
+    def on_ka(p):
+        if p.keep_alive_id == 99:
+            try:
+                conn.disconnect()
+                conn.connect()
+                results['listener:reconnect'] = 'ok'
+            except InvalidState:
+                results['listener:reconnect'] = 'invalid'
+    conn.register_packet_listener(on_ka, clientbound.play.KeepAlivePacket)
     if start in ('play', 'disconnected'):
         conn.connect()
         W.settle()
@@ -586,7 +615,6 @@ def sched_body(W, start, prog):
             conn.connect()
         except ConnectionRefusedError:
             pass
-    results = {}
     viol = []
 
     def do(tid, i, op):
@@ -605,6 +633,8 @@ def sched_body(W, start, prog):
                 W.servers[-1].play(('disconnect', '{"text":"bye"}'))
             elif op[0] == 'srv_garbage':
                 W.servers[-1].play(('raw', 0x21, b'\x01'))
+            elif op[0] == 'srv_ka99':
+                W.servers[-1].play(('keepalive', 99))
             results[tag] = 'ok'
         except InvalidState:
             results[tag] = 'invalid'
@@ -643,7 +673,8 @@ def sched_body(W, start, prog):
                      % S.max_in_run))
     opened = len(W.net.conns) + W.net.refused - base_tcp
     okcalls = sum(1 for k, v in results.items()
-                  if v == 'ok' and k.split(':')[1] in ('connect', 'status'))
+                  if v == 'ok' and k.split(':')[1] in ('connect', 'status',
+                                                       'reconnect'))
     # (server-side triggers 'srv_*' are not calls of the client API)
     if opened != okcalls:
         viol.append(('tcp-count', '%d TCP connections were opened by %d '
